@@ -185,6 +185,10 @@ class Run:
                        'searched': {'evaluations': self.cov.evaluations, 'seeds': self.search_seeds},
                        'rerun': f"./check {self.prop}"}, open(os.path.join(VERIF, replay), 'w'), indent=1)
             out_lines.append(f'VIOLATION property={self.prop} replay={replay} no-failing-input-found')
+        else:
+            stale = os.path.join(ev_dir, 'replay', f'{self.prop}-1.json')   # a replay file of an earlier, different tree
+            if os.path.exists(stale):
+                os.remove(stale)
         ledger = self.ledger
         level = ledger.get('level', 'other')
         cov = {
